@@ -53,6 +53,14 @@ func fail(format string, a ...any) {
 }
 
 func decoderFor(format string) yqlib.Decoder {
+	if name, ok := strings.CutSuffix(format, "-reg"); ok {
+		// as the command line gets it: from the format registry and the configured preferences
+		f, err := yqlib.FormatFromString(name)
+		if err != nil || f.DecoderFactory == nil {
+			fail("no registered decoder for %q", name)
+		}
+		return f.DecoderFactory()
+	}
 	switch format {
 	case "yaml":
 		p := yqlib.NewDefaultYamlPreferences()
@@ -118,6 +126,61 @@ func encoderFor(format string) yqlib.Encoder {
 		return yqlib.NewLuaEncoder(yqlib.ConfiguredLuaPreferences)
 	case "shell":
 		return yqlib.NewShellVariablesEncoder()
+	// encoders with preferences of their own: what one of them was given must not reach another
+	case "lua-prefix":
+		p := yqlib.NewDefaultLuaPreferences()
+		p.DocPrefix, p.DocSuffix = "config = ", ";\n-- end\n"
+		return yqlib.NewLuaEncoder(p)
+	case "lua-globals":
+		p := yqlib.NewDefaultLuaPreferences()
+		p.Globals = true
+		return yqlib.NewLuaEncoder(p)
+	case "lua-unquoted":
+		p := yqlib.NewDefaultLuaPreferences()
+		p.UnquotedKeys = true
+		return yqlib.NewLuaEncoder(p)
+	case "yaml-wrap":
+		p := yqlib.NewDefaultYamlPreferences()
+		p.UnwrapScalar = false
+		p.Indent = 4
+		return yqlib.NewYamlEncoder(p)
+	case "json-wrap":
+		p := yqlib.ConfiguredJSONPreferences.Copy()
+		p.Indent = 1
+		p.ColorsEnabled = false
+		p.UnwrapScalar = false
+		return yqlib.NewJSONEncoder(p)
+	case "props-sep":
+		p := yqlib.NewDefaultPropertiesPreferences()
+		p.KeyValueSeparator = ": "
+		p.UseArrayBrackets = true
+		return yqlib.NewPropertiesEncoder(p)
+	case "csv-semi":
+		p := yqlib.NewDefaultCsvPreferences()
+		p.Separator = ';'
+		return yqlib.NewCsvEncoder(p)
+	case "xml-attr":
+		p := yqlib.NewDefaultXmlPreferences()
+		p.AttributePrefix = "_"
+		p.Indent = 4
+		return yqlib.NewXMLEncoder(p)
+	// encoders as the command line gets them: from the format registry and the configured preferences
+	case "yaml-reg":
+		return yqlib.YamlFormat.EncoderFactory()
+	case "json-reg":
+		return yqlib.JSONFormat.EncoderFactory()
+	case "props-reg":
+		return yqlib.PropertiesFormat.EncoderFactory()
+	case "xml-reg":
+		return yqlib.XMLFormat.EncoderFactory()
+	case "lua-reg":
+		return yqlib.LuaFormat.EncoderFactory()
+	case "csv-reg":
+		return yqlib.CSVFormat.EncoderFactory()
+	case "toml-reg":
+		return yqlib.TomlFormat.EncoderFactory()
+	case "shell-reg":
+		return yqlib.ShellVariablesFormat.EncoderFactory()
 	}
 	fail("unknown output format %q", format)
 	return nil
